@@ -193,53 +193,68 @@ Definition first_data (evs : list event) : option (bytes * berr) :=
 Definition is_local (r : res) : bool := match r with RLocalR _ => true | _ => false end.
 Definition is_nil (r : res) : bool := match r with RNilR => true | _ => false end.
 
+(* walk through the calls: every transaction's envelope and message must arrive as given *)
+Fixpoint next_data (evs : list event) : option (bytes * berr * list event) :=
+  match evs with
+  | EData g _ r _ :: rest => Some (g, r, rest)
+  | _ :: rest => next_data rest
+  | [] => None
+  end.
+
+Fixpoint c16_walk (calls : list call) (results : list (list res)) (evs : list event) : bool :=
+  match calls, results with
+  | KMail from _ :: cs, [r] :: rs =>
+      if is_nil r then
+        match next_mail evs with
+        | Some (f, _, evs') => bytes_eqb f from && c16_walk cs rs evs'
+        | None => false
+        end
+      else c16_walk cs rs evs
+  | KRcpt to _ :: cs, [r] :: rs =>
+      if is_nil r then
+        match next_rcpt evs with
+        | Some (f, _, evs') => bytes_eqb f to && c16_walk cs rs evs'
+        | None => false
+        end
+      else c16_walk cs rs evs
+  | KData _ parts _ closes :: cs, (r0 :: closeres) :: rs =>
+      let body := List.concat parts in
+      is_nil r0 &&
+      match next_data evs with
+      | Some (got, verdict, evs') =>
+          (negb (cr_only_in_crlf body) || bytes_eqb got (normalise body))
+          && match closeres with
+             | c1 :: _ => match verdict with BNil => is_nil c1 | _ => negb (is_nil c1) && negb (is_local c1) end
+             | [] => false
+             end
+          && match closeres with
+             | _ :: c2 :: _ => is_local c2
+             | _ => true
+             end
+          && c16_walk cs rs evs'
+      | None => false
+      end
+  | KNoop :: cs, [r] :: rs => is_nil r && c16_walk cs rs evs
+  | KQuit :: cs, [r] :: rs => is_nil r && c16_walk cs rs evs
+  | _ :: cs, _ :: rs => c16_walk cs rs evs
+  | _, _ => true
+  end.
+
+Definition count_data (calls : list call) : nat :=
+  List.length (filter (fun k => match k with KData _ _ _ _ => true | _ => false end) calls).
+
 Definition c16_judge (calls : list call) (results : list (list res)) (evs : list event) (sent : bytes)
   : list bytes :=
-  let data_call :=
-    (fix go (cs : list call) (rs : list (list res)) :=
-       match cs, rs with
-       | KData _ parts _ closes :: _, r :: _ => Some (parts, closes, r)
-       | _ :: cs', _ :: rs' => go cs' rs'
-       | _, _ => None
-       end) calls results in
-  match data_call with
-  | Some (parts, closes, r0 :: closeres) =>
-      let body := List.concat parts in
-      if negb (is_nil r0) then [bs "C16"]
-      else
-        let ok_body :=
-          match first_data evs with
-          | Some (got, _) => negb (cr_only_in_crlf body) || bytes_eqb got (normalise body)
-          | None => false
-          end in
-        let verdict := match first_data evs with Some (_, r) => r | None => BNil end in
-        let ok_close1 :=
-          match closeres with
-          | c1 :: _ => match verdict with BNil => is_nil c1 | _ => negb (is_nil c1) && negb (is_local c1) end
-          | [] => false
-          end in
-        let ok_close2 :=
-          match closeres with
-          | _ :: c2 :: _ => is_local c2
-          | _ => true
-          end in
-        (* nothing but the message and the two later commands crossed: no second exchange *)
-        let ok_wire := is_suffix (dot_write_all parts ++ bs "NOOP" ++ crlf ++ bs "QUIT" ++ crlf) sent in
-        let envelope :=
-          match next_mail evs with
-          | Some (f, _, evs') =>
-              bytes_eqb f (bs "s@x")
-              && match next_rcpt evs' with
-                 | Some (a, _, evs'') =>
-                     bytes_eqb a (bs "r1@x")
-                     && match next_rcpt evs'' with Some (b, _, _) => bytes_eqb b (bs "r2@x") | None => false end
-                 | None => false
-                 end
-          | None => false
-          end in
-        if ok_body && ok_close1 && ok_close2 && ok_wire && envelope then [] else [bs "C16"]
-  | _ => [bs "C16"]
-  end.
+  let walk := (List.length calls =? List.length results)%nat && c16_walk calls results evs in
+  (* single-message cases end with NOOP, QUIT: nothing but the message and those two commands crossed
+     after DATA - no second exchange, no stray terminator *)
+  let ok_wire :=
+    match filter (fun k => match k with KData _ _ _ _ => true | _ => false end) calls with
+    | [KData _ parts _ _] =>
+        is_suffix (dot_write_all parts ++ bs "NOOP" ++ crlf ++ bs "QUIT" ++ crlf) sent
+    | _ => true
+    end in
+  if walk && ok_wire then [] else [bs "C16"].
 
 (* ---------- C17 ---------- *)
 
